@@ -213,6 +213,16 @@ func (st *wstate) checkClean(i int, l *scen.Lifetime, lf *model.Life, rep *scen.
 	}
 	for _, id := range sum.Tests {
 		if obsIDs[id] > 0 || freeIDs[id] || plan.MaybeDirty(id) {
+			if _, keep := keepIDs[id]; keep && plan.Deletes {
+				// the listing cannot be attributed (the id is legitimately listed for another
+				// file or may live in an unpredicted one), but in clean mode a listed id may
+				// have been removed wherever it occurs: those files are no longer predicted
+				for k := range plan.KeepTests {
+					if f, kid := model.SplitKey(k); kid == id {
+						st.d.MarkDirty(f, false)
+					}
+				}
+			}
 			continue
 		}
 		if prop, keep := keepIDs[id]; keep {
@@ -555,6 +565,9 @@ func (st *wstate) checkMulti(i int, l *scen.Lifetime, lf *model.Life, after worl
 			return viol("file-missing", i, -1, path, cleanLabel(path, "", callProps("C03")), "snapshot file %s holding %d entries is gone", path, len(f.Entries))
 		}
 		if !Parseable(f) {
+			if plan != nil && plan.MayReorder && lf.Addressed[path] != nil {
+				f.OrderKnown = false // sorted by Clean, but the new order cannot be read back here
+			}
 			return nil
 		}
 		act, err := ParseSnap(b)
